@@ -1,8 +1,8 @@
 SPECIFICATION Spec
 CONSTANTS
-  Params <- SendDup
+  Params <- SendBigWFull
   MaxBase = 1000000
-  MaxHist = 1000000
+  MaxHist = 1
 VIEW View
 ACTION_CONSTRAINT PrintScript
 CHECK_DEADLOCK FALSE
